@@ -7,7 +7,7 @@ import impl
 
 PID = "C15"
 LEAN_MODULES = ["BtcHd.Props.C15"]
-LEAN_MODULES_THOROUGH = ['BtcHd.Props.TrPaper']
+LEAN_MODULES_THOROUGH = ['BtcHd.Props.TrPaper', 'BtcHd.Props.TrText']
 TRUSTED_BASE = common.CORE_TRUSTED
 ASSUMPTIONS = ["secrets are identified by position and by decodability as a private-key encoding (see DESIGN §5 C15)"]
 RULE = "as C06, through paranoia_mode; non-trivial = distinct filtered report with at least one row"
